@@ -1,7 +1,7 @@
 (* C10 - format never changes what a file means or says.
    Statements only; proofs in Proofs/FormatProofs.v. *)
 From Coq Require Import String.
-From Verif Require Import Base.Str Base.Lines Base.Outcome Model.Patterns Model.ParseLine Model.Format Proofs.FormatProofs Proofs.FormatIdemProofs Proofs.FormatMeaningProofs Proofs.FormatDefLineProofs Proofs.FormatIncLineProofs.
+From Verif Require Import Base.Str Base.Lines Base.Outcome Model.Patterns Model.ParseLine Model.Format Proofs.FormatProofs Proofs.FormatIdemProofs Proofs.FormatMeaningProofs Proofs.FormatDefLineProofs Proofs.FormatIncLineProofs Proofs.FormatExcLineProofs.
 From Verif Require Tie.Pin_lits_cmd_regex_format_processLine Tie.Pin_lits_cmd_regex_format_processFile
   Tie.Pin_ProcessorBlockStartRegex_src Tie.Pin_ProcessorEndRegex_src Tie.Pin_FlagsRegex_src Tie.Pin_PrefixRegex_src
   Tie.Pin_SuffixRegex_src Tie.Pin_DefinitionRegex_src Tie.Pin_IncludeRegex_src Tie.Pin_IncludeExceptRegex_src
@@ -78,3 +78,26 @@ Theorem C10_formatted_include_line_reads_the_same : forall line indent out next 
   same_reading (trim_left is_blank out) line.
 Proof. exact format_keeps_include. Qed.
 Print Assumptions C10_formatted_include_line_reads_the_same.
+
+(* include-except directives: same file, same exclude list, same pair list, no other pattern *)
+Theorem C10_formatted_include_except_line_reads_the_same : forall line indent out next f ex pairs,
+  trim_left is_blank line = line -> m_include_except line = Some (f, ex, pairs) ->
+  process_line line indent = (Some out, next) ->
+  same_reading (trim_left is_blank out) line.
+Proof. exact format_keeps_include_except. Qed.
+Print Assumptions C10_formatted_include_except_line_reads_the_same.
+
+(* IN FULL: every line that is not a definition directive is read by all eight directive patterns
+   exactly as before (a definition line keeps name and value, see above: its first capture - the
+   text in front of the value, used by nothing - is the one thing that is re-spaced) *)
+Theorem C10_formatted_line_reads_the_same : forall line indent out next,
+  trim_left is_blank line = line -> m_definition line = None ->
+  process_line line indent = (Some out, next) ->
+  same_reading (trim_left is_blank out) line.
+Proof.
+  intros line indent out next Ht Hd H.
+  destruct (m_include line) as [[f pairs]|] eqn:Ei; [eapply format_keeps_include; eauto|].
+  destruct (m_include_except line) as [[[f ex] pairs]|] eqn:Ex; [eapply format_keeps_include_except; eauto|].
+  apply (format_keeps_reading line indent out next Ht); [repeat split; assumption|exact H].
+Qed.
+Print Assumptions C10_formatted_line_reads_the_same.
